@@ -550,7 +550,7 @@ def flatAgrees (prog : Program Float) (core : PV.Core.Stmt Float) (seed fuel : N
 def coreCompare (j : Json) : Except String Json := do
   let prog ← progOfJson (← j.getObjVal? "prog")
   let text ← j.getObjValAs? String "text"
-  match PV.Flatten.flatten (0.0 : Float) 1.0 (fun v => -v) (fun v => v == 1.0) (fun v => v == 0.0) prog with
+  match PV.Flatten.flatten (0.0 : Float) 1.0 (fun v => -v) (fun v => v == 1.0) (fun v => v < 0.0) prog with
   | none => pure (Json.mkObj [("verdict", Json.str "outside-core")])
   | some core =>
     if !PV.Core.pairsOk PV.Flatten.branchPairs core then pure (Json.mkObj [("verdict", Json.str "negok-false")]) else
